@@ -23,7 +23,7 @@ from .codegen import (
 )
 from .error import InvalidTypes
 from .origin import NO_ORIGIN, Origin
-from .serialize import TYPE_KEY, DataClassSerializeMixin
+from .serialize import TYPE_KEY, DataClassSerializeMixin, SerializationOption
 from .types import get_cls_all_fields, get_cls_child_fields, get_cls_props
 from .typing import Field, FieldTypeInfo, check_annotations, is_instance
 
@@ -308,11 +308,13 @@ class ASTNode(DataClassSerializeMixin):
             == ASTSerializationDialects.AST_TEST
         ):
             # Keys in sorted order (valid with and without key sorting)
-            out.get("origin", {})["source"] = {
-                TYPE_KEY: "Source",
-                "source_type": "",
-                "source_uri": "",
-            }
+            source_stub: dict[str, Any] = {"source_type": "", "source_uri": ""}
+
+            if not self._get_serialization_options().get(SerializationOption.SKIP_CLASS, False):
+                # No type tags at any level when they are suppressed
+                source_stub = {TYPE_KEY: "Source", **source_stub}
+
+            out.get("origin", {})["source"] = source_stub
 
         return out
 
